@@ -104,37 +104,42 @@ from collections import deque
 def ok_assign_blocks(body):
     """Blocks that store Ok(..) into the return place."""
     out = []
-    for (bb, idx, kind, payload, lhs_proj) in body.defs(0):
-        if kind == "assign" and not lhs_proj:
-            rv = payload["rv"]
-            if rv["r"] == "agg" and rv.get("ak") == "adt" and rv["adt"].endswith("result::Result") and rv["variant"] == "Ok":
-                out.append(bb)
+    for l, mode in body.return_aliases().items():
+        if mode != "both":
+            continue
+        for (bb, idx, kind, payload, lhs_proj) in body.defs(l):
+            if kind == "assign" and not lhs_proj:
+                rv = payload["rv"]
+                if rv["r"] == "agg" and rv.get("ak") == "adt" and rv["adt"].endswith("result::Result") and rv["variant"] == "Ok":
+                    out.append(bb)
     return out
 
 
 def err_assign_blocks(body):
     """[(bb, 'ErrorVariant' | None)] for blocks that store Err(..) into the return place."""
     out = []
-    for (bb, idx, kind, payload, lhs_proj) in body.defs(0):
-        if kind == "assign" and not lhs_proj:
-            rv = payload["rv"]
-            if rv["r"] == "agg" and rv.get("ak") == "adt" and rv["adt"].endswith("result::Result") and rv["variant"] == "Err":
-                var = None
-                for lf in body.origins(rv["ops"][0]):
-                    if lf["kind"] == "agg":
-                        var = lf["stmt"]["rv"].get("variant")
-                out.append((bb, var))
+    for l in body.return_aliases():
+        for (bb, idx, kind, payload, lhs_proj) in body.defs(l):
+            if kind == "assign" and not lhs_proj:
+                rv = payload["rv"]
+                if rv["r"] == "agg" and rv.get("ak") == "adt" and rv["adt"].endswith("result::Result") and rv["variant"] == "Err":
+                    var = None
+                    for lf in body.origins(rv["ops"][0]):
+                        if lf["kind"] == "agg":
+                            var = lf["stmt"]["rv"].get("variant")
+                    out.append((bb, var))
     return out
 
 
 def residual_return_blocks(body):
     """[(bb, Call)] for `?` error exits: _0 = FromResidual::from_residual(..)."""
     out = []
-    for (bb, idx, kind, payload, lhs_proj) in body.defs(0):
-        if kind == "call":
-            c = body.call_at(bb)
-            if c.decl == "std::ops::FromResidual::from_residual":
-                out.append((bb, c))
+    for l in body.return_aliases():
+        for (bb, idx, kind, payload, lhs_proj) in body.defs(l):
+            if kind == "call":
+                c = body.call_at(bb)
+                if c.decl == "std::ops::FromResidual::from_residual":
+                    out.append((bb, c))
     return out
 
 
